@@ -294,7 +294,25 @@ var SEQ = (function(){
     if (a !== b) return "MISMATCH direct="+a+" proxy="+b;
     return "OK "+a+"#"+calls.join(",");
   }
-  return {run: run, revoked: revoked, jsHandler: jsHandler, TRAPS: TRAPS, keylie: keylie, mkKind: mkKind, fnkind: fnkind,
+  // model correspondence: primitive operations applied to a bare target (no proxy), answers in the canonical form, to be
+  // compared with the Lean target models of Ordinary.lean / Exotic.lean.  Prototype null: no inherited lookups.
+  function mkModelKind(kind){
+    var o;
+    switch(kind){
+    case "mobj": o = Object.create(null); o.x = 1; return o;
+    case "marr": o = [1,2,3]; Object.setPrototypeOf(o, null); return o;
+    case "mstr": o = new String("ab"); Object.setPrototypeOf(o, null); return o;
+    case "mta": o = new Uint8Array([1,2,3]); Object.setPrototypeOf(o, null); return o;
+    case "margm": o = SEQ_SLOPPY_ARGS(1,2); Object.setPrototypeOf(o, null); delete o.callee; delete o[Symbol.iterator]; delete o.length; return o;
+    }
+    throw new Error("bad model kind "+kind);
+  }
+  function model(kind, ops){
+    var T = mkModelKind(kind), out = [];
+    for (var i = 0; i < ops.length; i++) out.push(attempt(T, ops[i], T, [T]));
+    return out.join("|");
+  }
+  return {run: run, revoked: revoked, jsHandler: jsHandler, TRAPS: TRAPS, keylie: keylie, mkKind: mkKind, fnkind: fnkind, model: model,
           mkMargs: function(){ return SEQ_SLOPPY_ARGS(1,2); },
           jsOuter: function(t, lie){ return new Proxy(t, {ownKeys: function(){ return lie; }}); }};
 })();
@@ -307,6 +325,7 @@ type seqEnv struct {
 	revoked goja.Callable
 	keylie  goja.Callable
 	fnkind  goja.Callable
+	model   goja.Callable
 	mkKind  goja.Callable
 	mkMargs goja.Callable
 	jsOuter goja.Callable
@@ -330,7 +349,7 @@ func newSeqEnv() *seqEnv {
 		return f
 	}
 	e := &seqEnv{vm: vm, run: get(s, "run"), revoked: get(s, "revoked"), jsH: get(s, "jsHandler"), reflect: map[string]goja.Callable{},
-		keylie: get(s, "keylie"), fnkind: get(s, "fnkind"), mkKind: get(s, "mkKind"), mkMargs: get(s, "mkMargs"), jsOuter: get(s, "jsOuter")}
+		keylie: get(s, "keylie"), fnkind: get(s, "fnkind"), model: get(s, "model"), mkKind: get(s, "mkKind"), mkMargs: get(s, "mkMargs"), jsOuter: get(s, "jsOuter")}
 	r := vm.Get("Reflect").ToObject(vm)
 	for _, t := range []string{"getPrototypeOf", "setPrototypeOf", "isExtensible", "preventExtensions", "getOwnPropertyDescriptor",
 		"defineProperty", "has", "get", "set", "deleteProperty", "ownKeys", "apply", "construct"} {
@@ -502,6 +521,17 @@ func runSeq(f []string) string {
 	}
 	e := theSeq
 	vm := e.vm
+	if f[0] == "model" {
+		// Q model <kind> <op;op;...>
+		if len(f) < 3 {
+			return "BADLINE"
+		}
+		v, err := e.model(goja.Undefined(), vm.ToValue(f[1]), vm.ToValue(strings.Split(f[2], ";")))
+		if err != nil {
+			return "ERR:" + common.OneLine(err.Error())
+		}
+		return v.String()
+	}
 	if len(f) < 4 {
 		return "BADLINE"
 	}
